@@ -686,3 +686,54 @@ def control_slice(fn, op, stop_at_calls=()):
                         seen_sw.add(sb)
                         work.append(fn.blocks[sb]['term']['discr'])
     return locals_, calls, fields
+
+
+def variant_edges(fn, local, index, n_variants=2):
+    """All switch edges taken when the enum held in `local` has discriminant `index` (switches created by drop
+    elaboration on the same discriminant are included; use any()/all() over the result)."""
+    out = []
+    for sb in switches(fn):
+        term = fn.blocks[sb]['term']
+        r = trace(fn, term['discr'])
+        if r[0] == 'discr' and r[2]['rhs']['place']['local'] == local and not [p for p in r[2]['rhs']['place']['proj'] if p['k'] != 'deref']:
+            tg = dict((v, x) for v, x in term['targets'])
+            if str(index) in tg:
+                out.append((sb, tg[str(index)]))
+            elif 'otherwise' in tg and fn.blocks[tg['otherwise']]['term']['t'] != 'unreachable':
+                out.append((sb, tg['otherwise']))
+    return out
+
+
+def natural_loops(fn):
+    """list of (head, body set) for every back edge n->h with h dominating n (bodies of equal heads are merged)"""
+    if getattr(fn, '_loops', None) is None:
+        live = fn.live_blocks()
+        loops = {}
+        for n in live:
+            for h in fn.succ(n):
+                if h in live and fn.dominates_block(h, n):
+                    body = {h, n}
+                    work = [n]
+                    while work:
+                        x = work.pop()
+                        if x == h:
+                            continue
+                        for p in fn.pred(x):
+                            if p in live and p not in body:
+                                body.add(p)
+                                work.append(p)
+                    loops.setdefault(h, set()).update(body)
+        fn._loops = sorted(loops.items())
+    return fn._loops
+
+
+def innermost_loop(fn, b):
+    best = None
+    for h, body in natural_loops(fn):
+        if b in body and (best is None or len(body) < len(best[1])):
+            best = (h, body)
+    return best
+
+
+def loop_depth(fn, b):
+    return sum(1 for h, body in natural_loops(fn) if b in body)
